@@ -49,3 +49,16 @@ Definition class_of (cf : vcfg) : lim_class :=
   match v_limit cf with None => LNone | Some l => if l <=? v_max_pre cf then LSmall else LBig end.
 Definition cut_val (cf : vcfg) (c : cut_t) : N :=
   match c with CLimit => match v_limit cf with Some l => l | None => 0 end | _ => v_max_pre cf end.
+
+(** ---- where FileInfo.read / FileInfo.verify take the bytes after [start_data] from ---- *)
+Inductive rsrc := RNone | RFooter | RArch | ROther.
+(** (arch_len is zero, arch_index is None, source read() uses, source whose checksum verify() compares with crc) *)
+Record rrow := mkRRow { rr_alen_zero : bool; rr_idx_none : bool; rr_read : rsrc; rr_verify : rsrc }.
+Definition rsrc_eqb (a b : rsrc) : bool := match a, b with RNone, RNone | RFooter, RFooter | RArch, RArch => true | _, _ => false end.
+Definition want_src (alen_zero idx_none : bool) : rsrc := if alen_zero then RNone else if idx_none then RFooter else RArch.
+Definition rrow_ok (r : rrow) : bool :=
+  rsrc_eqb (rr_read r) (want_src (rr_alen_zero r) (rr_idx_none r)) && rsrc_eqb (rr_verify r) (want_src (rr_alen_zero r) (rr_idx_none r)).
+Definition read_table_ok (tbl : list rrow) : bool :=
+  forallb rrow_ok tbl &&
+  forallb (fun s => existsb (fun r => Bool.eqb (rr_alen_zero r) (fst s) && Bool.eqb (rr_idx_none r) (snd s)) tbl)
+          [(false, false); (false, true); (true, false); (true, true)].
